@@ -879,8 +879,10 @@ fn join_chunks(chunks: Vec<Chunk>, options: &FormattingOptions) -> String {
                     }
                 } else {
                     // If the line only consists of comments, move them to the 'code' column
-                    if line.len() > options.whitespace.label_margin + options.whitespace.code_margin
-                    {
+                    // (If the column falls inside a multi-byte character, what precedes it cannot be just whitespace)
+                    let comment_column =
+                        options.whitespace.label_margin + options.whitespace.code_margin;
+                    if line.len() > comment_column && line.is_char_boundary(comment_column) {
                         let (label_code, comment) = line.split_at(
                             options.whitespace.label_margin + options.whitespace.code_margin,
                         );
